@@ -9,6 +9,8 @@ import (
 	"bytes"
 	"fmt"
 	"math/big"
+	"os"
+	"runtime"
 	"sort"
 
 	"github.com/ElrondNetwork/elrond-go/data/block"
@@ -60,17 +62,18 @@ type job struct {
 }
 
 type driver struct {
-	s      *stack
-	w      *vtrace.Writer
-	chain  []blk // live (not yet pruned) blocks, oldest first
-	nfin   int   // chain[0:nfin] are final
-	q      *recQueue
-	nonce  uint64
-	rolled map[int][]blk // parent rid -> rolled back children (for re-apply)
-	manual int           // EnterPruningBufferingMode calls of the driver not yet exited
-	jobs   []*job
-	ncp    uint32 // GetNumCheckpoints baseline
-	clean  bool   // this trace avoids the triggers of the known deviations
+	s       *stack
+	w       *vtrace.Writer
+	chain   []blk // live (not yet pruned) blocks, oldest first
+	nfin    int   // chain[0:nfin] are final
+	q       *recQueue
+	nonce   uint64
+	rolled  map[int][]blk // parent rid -> rolled back children (for re-apply)
+	manual  int           // EnterPruningBufferingMode calls of the driver not yet exited
+	jobs    []*job
+	ncp     uint32 // GetNumCheckpoints baseline
+	clean   bool   // this trace avoids the triggers of the known deviations
+	maxJobs int    // snapshot/checkpoint jobs allowed to run at the same time
 }
 
 func hdr(b blk) *block.Header {
@@ -428,6 +431,10 @@ func (d *driver) startJob(kind string, idx int) error {
 		return err
 	}
 	if len(fresh) != 1 || fresh[0].rid != b.rid {
+		if os.Getenv("VH_DEBUG") != "" {
+			buf := make([]byte, 1<<20)
+			fmt.Fprintf(os.Stderr, "LAST SETTLE\n%s\nNOW\n%s\n", lastSettle, buf[:runtime.Stack(buf, true)])
+		}
 		return fmt.Errorf("%s(%d): expected exactly one new job goroutine for that root, got %d", a, b.rid, len(fresh))
 	}
 	d.emit(a, M{"r": b.rid}, d.jobObs())
@@ -458,7 +465,11 @@ func (d *driver) release(p *parkedG) error {
 	who, jidx := "L", 0
 	if p.kind != "get" {
 		who = "G"
-		jidx = d.jobOf(p.g).idx
+		j := d.jobOf(p.g)
+		if j == nil {
+			return fmt.Errorf("goroutine %d parked at %s(%d) belongs to no known job (jobs: %d)", p.g, p.kind, d.s.id(p.key), len(d.jobs))
+		}
+		jidx = j.idx
 	}
 	key := d.s.id(p.key)
 	d.s.g.releaseOne(p)
